@@ -3249,6 +3249,11 @@ public:
           operator-=(x);
           assert(!is_bottom());
           m_vert_map.insert(vmap_elt_t(x, {v, w}));
+        } else {
+          // No octagonal constraint can be extracted from the
+          // assignment: x only keeps the interval of the rhs (the old
+          // constraints on x must be forgotten).
+          set(x, x_int);
         }
       }
     }
